@@ -23,7 +23,7 @@ PY
     out=$(./check $id --repo $REPO 2>&1); rc=$?
     cp /tmp/evidence_keep_$id.json evidence/$id.json 2>/dev/null
     v=$(echo "$out" | grep -c "^VIOLATION")
-    u=$(echo "$out" | grep -c "undecided:")
+    u=$(echo "$out" | grep -c "undecided:\|^UNDECIDED")
     res="$res $id:rc=$rc,viol=$v,undec=$u"
     if [ $rc -ne 0 ]; then echo "$out" | grep "^VIOLATION" | cut -c1-300 | sed "s|^|    |"; fi
   done
